@@ -2,16 +2,68 @@
 
 PROP = {'modules': ['SfntV.Props.C13'],
  'required_theorems': ['C13_index_roundtrip',
+                       'C13_index_encode_ok_iff',
                        'C13_index_offsize',
                        'C13_dictint_roundtrip',
-                       'C13_dictint_sizes'],
+                       'C13_dictint_sizes',
+                       'C13_dictreal_nibbles',
+                       'C13_dictreal_decimal',
+                       'C13_dictreal_roundtrip_partial',
+                       'C13_dictreal_roundtrip',
+                       'C13_charset_roundtrip',
+                       'C13_fdselect_roundtrip',
+                       'C13_strings_roundtrip',
+                       'C13_layout_consistent',
+                       'C13_widths_integral',
+                       'C13_width_stored_exactly',
+                       'C13_facts'],
  'areas': [('cff', 600, 12000)],
- 'rule': 'distinct case lines (section encoder inputs / section bytes); non-trivial = at least one object, '
-         'glyph or operand beyond the empty structure',
- 'partial': [],
- 'modelled_not_verified': [],
- 'assumptions': []}
+ 'rule': 'distinct case lines (section encoder inputs / section bytes / font descriptions); non-trivial = at least one '
+         'object, glyph or operand beyond the empty structure',
+ 'partial': ['C13_dictreal_roundtrip is proved from the nine-digit integer and decimal-point position onwards (|l| <= 280); '
+             'the float64 step of encodeFloat (Log10/Pow10/Round producing the nine digits, i.e. "to nine significant digits") '
+             'is not modelled; it is compared by correspondence on decimals of 1-9 digits.',
+             'C13_encoding_roundtrip_full (def): encodeEncoding/readEncoding are modelled (formats 0/1, supplements) and '
+             'tied byte-exactly, the spec reader is applied to written fonts, but the round-trip theorem is not proved.',
+             'C13_layout_consistent is proved for the model writeFont of (*Font).Write (byte-identical to the real Write on '
+             'every generated font, stream cff.file.model) restricted to ItalicAngle = 0, default font matrices, default '
+             'BlueScale, StdHW = StdVW = 0 (the float-valued DICT entries are then absent) and to fonts whose widths are not all '
+             'equal (otherwise nominalWidth is +Inf and int32(+Inf) is implementation-defined). topdict_roundtrip / '
+             'privatedict_roundtrip / C13_font_roundtrip (composition through the reader) are not proved: checked by the Lean '
+             'spec CFF reader on every written font (cff.file.spec) and by the real Write->Read (cff.file.rt).',
+             'width_recovered: proved that the stored default/nominal widths are integers and round-trip as DICT integers '
+             '(C13_widths_integral, C13_width_stored_exactly); the charstring number round trip of width-nominalWidth is C04/C05.',
+             'Spec readers (specIndex, specCharset, specFDSelect, specEncoding) are evaluated on the Go bytes (D streams); '
+             'round-trip theorems are stated for the models of the Go readers, not for the spec readers.',
+             'Predefined charsets (ISOAdobe/Expert/ExpertSubset, charset offsets 0-2) and predefined encodings are never '
+             'written by (*Font).Write (standard/expert encodings are detected and omitted); their tables are not regenerated.',
+             'INDEX offSize 4 (bodies >= 16 MiB) is covered by the theorem only; the streams reach offSize 1-3.'],
+ 'modelled_not_verified': ['strconv.ParseFloat: grammar and exact decimal value modelled (parseDec), float64 rounding '
+                           'compared through the shortest decimal for inputs of at most 15 significant digits',
+                           'math.Log10/Pow10/Round in encodeFloat and the float sum/division in selectWidths (exact on '
+                           '16.16 inputs away from rounding ties)',
+                           'parser.Parser used as a plain byte view (property C17)',
+                           'sort.Search re-implemented (searchLoop) and proved to return the least index of a monotone '
+                           'predicate'],
+ 'assumptions': ['INDEX: fewer than 65 536 objects, body shorter than 2^32-1 bytes (exactly the inputs on which encode '
+                 'does not panic, C13_index_encode_ok_iff)',
+                 'charset: names[0] = 0, all SIDs/CIDs in 0..65535, at most 65 535 glyphs (values above 0xFFFF are '
+                 'truncated silently by encodeCharset - outside the stated domain, verdict stream only)',
+                 'FDSelect: 1..65 535 glyphs, FD indices < number of private dicts <= 256',
+                 'DICT integers: int32; reals: nine-digit mantissa chosen by the float computation',
+                 'widths are 16.16 fixed-point numbers']}
 
-LEVEL = {'text': 'Proof (partial).',
- 'note': '',
- 'technique': 'Lean 4 proof about section encoder/decoder models + byte-exact differential correspondence'}
+LEVEL = {'text': 'Proof (partial): INDEX write/read round trip for every list of byte strings with minimal sufficient '
+         'offSize; DICT integers of all five size classes over the whole int32 range; nibble-coded reals up to the exact '
+         'decimal; charset formats 0/1/2 and FDSelect formats 0/3 (with the binary search of the returned function) for '
+         'all inputs in the documented domain; SID<->string; integrality of the stored default/nominal widths (after the '
+         'repair of the int32 truncation). Each model is tied to the Go function byte-exactly through hooks, readers also '
+         'on mutated bytes; independent TN5176 readers written in Lean are evaluated on whole fonts written by the real '
+         '(*cff.Font).Write (simple and CID-keyed, 1-256 private dicts, custom encodings with multiply-encoded glyphs, '
+         'fractional widths), and the real Write->Read is compared field by field.',
+ 'note': 'Trusted: Lean kernel + 3 standard axioms; hand-written models mirror cff/index.go, dict.go, charset.go, '
+         'fdselect.go, encoding.go, strings.go, write.go:selectWidths as checked by sampled byte-exact correspondence; '
+         'the spec readers are my reading of TN5176/5177. Encoding round trip, real-number clamping range and the offset '
+         'fixed-point loop are evaluated, not proved.',
+ 'technique': 'Lean 4 proofs about section encoder/decoder models + byte-exact differential correspondence + '
+              'Lean spec CFF reader applied to real output'}
